@@ -407,6 +407,18 @@ pub fn chain_doc(r: &mut Rng) -> (RDoc, String) {
             d.objects.insert((2, 0), dict(vec![("Type", name("Pages")), ("Kids", RObj::Array(vec![RObj::Ref(3, 0), RObj::Ref(4, 0)])), ("Count", RObj::Int(c))]));
             d.objects.insert((3, 0), dict(vec![("Type", name("Pages")), ("Kids", RObj::Array(vec![RObj::Ref(4, 0)])), ("Count", RObj::Int(c)), ("Parent", RObj::Ref(2, 0))]));
             d.objects.insert((4, 0), dict(vec![("Type", name("Page")), ("Parent", RObj::Ref(3, 0))]));
+            // half of these: a real page first, then several sibling nodes that each claim the absurd count (the
+            // claims of all pending nodes together exceed what a machine word holds)
+            if r.bool() {
+                let k = 2 + r.below(5) as u32;
+                let mut kids = vec![RObj::Ref(4, 0)];
+                for i in 0..k {
+                    let id = 10 + i;
+                    d.objects.insert((id, 0), dict(vec![("Type", name("Pages")), ("Kids", RObj::Array(vec![RObj::Ref(4, 0)])), ("Count", RObj::Int(c)), ("Parent", RObj::Ref(2, 0))]));
+                    kids.push(RObj::Ref(id, 0));
+                }
+                d.objects.insert((2, 0), dict(vec![("Type", name("Pages")), ("Kids", RObj::Array(kids)), ("Count", RObj::Int(c))]));
+            }
         }
         7 => {
             // Contents: array of l references / reference chain to array
